@@ -566,13 +566,20 @@ package profile
 
 // parseCPUSamples: no index out of range and no negative allocation for any bytes and any word reader.
 //@ func parseCPUSamples arith bv
-//@   requires p != nil
+//@   requires wfprofile(p)
+//@   ensures wf: result2 == nil ==> wfprofile(p)
 //@   loop 1
-//@     invariant p != nil
+//@     invariant wfprofile(p) && locs != nil
+//@     invariant locsok: forall a uint64 :: has(locs, a) ==> locs[a] != nil
 //@   loop 2
 //@     invariant 0 <= i && i <= len(addrs) && len(addrs) == int(nstk)
+//@     invariant wfprofile(p) && locs != nil
+//@     invariant locsok: forall a uint64 :: has(locs, a) ==> locs[a] != nil
 //@   loop 3
 //@     invariant 0 <= $i && $i <= len(addrs)
+//@     invariant wfprofile(p) && locs != nil
+//@     invariant locsok: forall a uint64 :: has(locs, a) ==> locs[a] != nil
+//@     invariant slocok: forall k int :: 0 <= k && k < len(sloc) ==> sloc[k] != nil
 
 //@ func cleanupDuplicateLocations arith bv
 //@   requires wfprofile(p)
@@ -1058,22 +1065,31 @@ package profile
 // buffer for any input, and a sample gets exactly two values ----
 //@ func parseJavaHeader
 //@   uses profile.errs
-//@   requires p != nil
+//@   requires wfprofile(p)
+//@   ensures wf: wfprofile(p)
 //@   atreturn nonblank: line != ""
 //@   loop 1
-//@     invariant p != nil && (nextNewLine == -1 || (0 <= nextNewLine && nextNewLine < len(b)))
+//@     invariant wfprofile(p) && (nextNewLine == -1 || (0 <= nextNewLine && nextNewLine < len(b)))
 //@ func parseJavaSamples arith bv floatabs=yes
 //@   uses profile.errs
-//@   requires p != nil
+//@   requires wfprofile(p)
+//@   ensures wf: result2 == nil ==> wfprofile(p)
 //@   atreturn nonblank: line != ""
 //@   loop 1
-//@     invariant p != nil && locs != nil && (nextNewLine == -1 || (0 <= nextNewLine && nextNewLine < len(b)))
+//@     invariant wfprofile(p) && locs != nil && (nextNewLine == -1 || (0 <= nextNewLine && nextNewLine < len(b)))
+//@     invariant locsok: forall a uint64 :: has(locs, a) ==> locs[a] != nil
 //@     mustcall parseHexAddresses parsed: true when line != ""
 //@   loop 2
-//@     invariant p != nil && locs != nil && (0 <= nextNewLine && nextNewLine < len(b)) && len(sample) == 4
+//@     invariant wfprofile(p) && locs != nil && (0 <= nextNewLine && nextNewLine < len(b)) && len(sample) == 4
+//@     invariant locsok: forall a uint64 :: has(locs, a) ==> locs[a] != nil
+//@     invariant slocok: forall k int :: 0 <= k && k < len(sloc) ==> sloc[k] != nil
 //@ func parseJavaLocations
 //@   requires wfprofile(p)
 //@   loop 1
 //@     invariant wfprofile(p) && fns != nil
 //@ func Profile.ParseMemoryMapFromScanner
 //@   requires wfprofile(p)
+//@ func parseJavaProfile
+//@   uses profile.errs
+//@ func javaCPUProfile funcvalues=pure
+//@   uses profile.errs
